@@ -939,6 +939,101 @@ func exportTables(repo string) (string, error) {
 	fmt.Fprintf(&b, "Definition maptype_of_source : list (string * list string) := [%s].\n\n", strings.Join(mapArms, ";\n    "))
 	fmt.Fprintf(&b, "Definition tabref_keeps_optional_of_source : bool := %s.\n\n", tabrefOpt)
 
+	// ---- which statements mapResponse reads: the list syslwrapper.ReturnStatements gives (the arms of its type switch
+	// that recurse), or the top-level statements only (the tree as found: no such function, the loop ranges over the parameter)
+	var descend []string
+	app, aerr := parseGo(repo, "pkg/syslwrapper/app.go")
+	if aerr != nil {
+		x.unk("pkg/syslwrapper/app.go does not parse")
+	} else if fd := etFindFunc(app, "AppMapper", "mapResponse"); fd == nil || len(fd.Type.Params.List) < 1 {
+		x.unk("mapResponse not found")
+	} else {
+		param := fd.Type.Params.List[0].Names[0].Name
+		ranged, viaHelper := "", map[string]bool{}
+		for _, st := range fd.Body.List {
+			switch s := st.(type) {
+			case *ast.AssignStmt:
+				if c, ok := s.Rhs[0].(*ast.CallExpr); ok && isIdent(c.Fun, "ReturnStatements") && len(c.Args) == 1 && isIdent(c.Args[0], param) {
+					if id, ok := s.Lhs[0].(*ast.Ident); ok {
+						viaHelper[id.Name] = true
+					}
+				}
+			case *ast.RangeStmt:
+				if id, ok := s.X.(*ast.Ident); ok {
+					ranged = id.Name
+				} else if c, ok := s.X.(*ast.CallExpr); ok && isIdent(c.Fun, "ReturnStatements") && len(c.Args) == 1 && isIdent(c.Args[0], param) {
+					ranged = "#helper"
+					viaHelper[ranged] = true
+				}
+			}
+		}
+		switch {
+		case viaHelper[ranged]:
+			hd := etFindFunc(app, "", "ReturnStatements")
+			if hd == nil {
+				x.unk("ReturnStatements not found")
+				break
+			}
+			var ts *ast.TypeSwitchStmt
+			ast.Inspect(hd.Body, func(n ast.Node) bool {
+				if t, ok := n.(*ast.TypeSwitchStmt); ok && ts == nil {
+					ts = t
+				}
+				return true
+			})
+			if ts == nil {
+				x.unk("ReturnStatements: no type switch")
+				break
+			}
+			sawRet := false
+			for _, cl := range ts.Body.List {
+				cc := cl.(*ast.CaseClause)
+				if cc.List == nil {
+					x.unk("ReturnStatements: default arm")
+					continue
+				}
+				recurses, appends := false, false
+				for _, b := range cc.Body {
+					ast.Inspect(b, func(n ast.Node) bool {
+						if c, ok := n.(*ast.CallExpr); ok {
+							if isIdent(c.Fun, "ReturnStatements") {
+								recurses = true
+							}
+							if isIdent(c.Fun, "append") && len(c.Args) == 2 && !c.Ellipsis.IsValid() {
+								appends = true
+							}
+						}
+						return true
+					})
+				}
+				for _, le := range cc.List {
+					name := "?"
+					if st, ok := le.(*ast.StarExpr); ok {
+						if ch := selChain(st.X); len(ch) == 2 {
+							name = strings.TrimPrefix(ch[1], "Statement_")
+						}
+					}
+					switch {
+					case name == "Ret" && appends && !recurses:
+						sawRet = true
+					case name != "?" && name != "Ret" && recurses:
+						descend = append(descend, etStr(name))
+					default:
+						x.unk("ReturnStatements: arm %s neither keeps a return statement nor recurses", name)
+					}
+				}
+			}
+			if !sawRet {
+				x.unk("ReturnStatements: no arm keeps a return statement")
+			}
+		case ranged == param:
+			// top-level statements only
+		default:
+			x.unk("mapResponse: the loop ranges over %s", ranged)
+		}
+	}
+	fmt.Fprintf(&b, "Definition ret_descend_of_source : list string := [%s].\n\n", strings.Join(descend, "; "))
+
 	var us []string
 	for _, u := range x.unknown {
 		us = append(us, etStr(u))
